@@ -1,3 +1,4 @@
+import random
 from harness import sendpath, core, sched, e2ekit
 
 
@@ -121,7 +122,26 @@ def redundant_disconnect(r):
         roots.close()
 
 
+def receive_failure_real_dispatchers(r):
+    """A failure on the way up with the REAL dispatchers underneath (loopback, harness/realnet.py): the layers above raise while the
+    dispatcher hands them data.  The connection is given up and its end announced (nothing stays half-alive), a later connect request
+    brings up a working connection.  Validated by TLC against NetLayer_Trace.tla."""
+    from harness import realnet
+    rng = random.Random(core.seed() + 12)
+    scripts = [(l, sc) for (l, sc) in realnet.families() if "handler-fails" in l]
+    scripts.append(("handler-fails-under-load", [["connect", True], ["send", "medium"], ["peer-send", "medium"], ["peer-send", "medium"], ["handler-fails"], ["connect", True],
+                                                 ["send", "medium"], ["peer-send", "large"], ["sync"], ["handler-fails"], ["connect", True], ["send", "tiny"], ["sync"], ["disconnect"]]))
+    runs = []
+    for kind in ("socket", "asyncore"):
+        for i, (label, sc) in enumerate(scripts):
+            ev, errs = realnet.run_scenario(kind, sc, rng, via_event=(i % 2 == 1))
+            runs.append((kind, label, sc, realnet.coalesce(ev), errs))
+            r.case(("real-dispatcher-failure", kind, label))
+    realnet.validate(r, runs)
+
+
 def extras(r):
+    receive_failure_real_dispatchers(r)      # real threads: before any deterministic scheduler is installed
     keepalive_callback_failure(r)
     redundant_disconnect(r)
     key_request_failure(r)
